@@ -693,8 +693,9 @@ HANDOVER_MODELS = [
     ("MCHandover_ThreadDetects.cfg", "Independent", "Handover: thread-local tables, generators move (Independent must fail)"),
     ("MCHandover_ProcessDetects.cfg", "Independent", "Handover: process-wide tables (Independent must fail)"),
 ]
+# ... the last three end in the Ru100 / Se76 / Sm150 cascades with an angular-correlation block (a rejection loop of its own)
 DBD_SHARE_CFGS = ["Mo100:0:1", "Se82:0:1", "Cd106:0:10", "Cd106:1:12", "Zr96:0:20", "Nd150:1:3", "Mo100:1:7", "Te130:0:6", "Xe136:0:13",
-                  "Ca48:0:15", "Ge76:0:18"]
+                  "Ca48:0:15", "Ge76:0:18", "Mo100:2:1", "Ge76:2:1", "Nd150:3:7"]
 
 
 def run_sharing(ck, wd, thorough, rng):
